@@ -33,6 +33,9 @@ ERRNO = {"read": ["EACCES", "EIO"], "open": ["EACCES", "ENOSPC"], "write": ["ENO
 
 CONFIGS = [("inplace", True, 1, True), ("inplace", False, 1, True), ("inplace", True, 2, True), ("inplace", False, 2, True),
            ("stdout", False, 1, True), ("stdout", False, 2, True), ("outfile", False, 1, True), ("outfile", False, 1, False)]
+# target kinds for the in-place configurations: the named path is a regular file, or a symbolic link to the file (the content read
+# through the named path must stay intact whatever the implementation does with links)
+LINK_CONFIGS = [("inplace", True, 1, True), ("inplace", False, 1, True), ("inplace", False, 2, True)]
 INVS = ["TargetIntact", "NoTouchWithoutInplace", "FailureAtomic", "PerFileAllOrNothing", "Untouched", "Completed", "Dump"]
 
 
@@ -47,6 +50,8 @@ def new_text(old: str) -> str:
 
 
 class Scenario:
+    link = False
+
     def __init__(self, sid, mode, backup, nfiles, outexists, badv, status, hist, fs):
         self.sid, self.mode, self.backup, self.nfiles, self.outexists = sid, mode, backup, nfiles, outexists
         self.bad, self.status, self.hist, self.fs = badv, status, hist, fs
@@ -60,7 +65,7 @@ class Scenario:
 
     def key(self):
         return dict(mode=self.mode, backup=self.backup, nfiles=self.nfiles, outexists=self.outexists, bad=self.bad,
-                    kind=self.kind, op=self.op, file=self.file, errno=self.errno, badkind=self.badkind)
+                    kind=self.kind, op=self.op, file=self.file, errno=self.errno, badkind=self.badkind, link=self.link)
 
 
 def materialise(sc: Scenario, new: str):
@@ -80,7 +85,12 @@ def materialise(sc: Scenario, new: str):
             open(os.path.join(root, name), "wb").write(content)
         else:
             content = OLD.encode()
-            open(os.path.join(root, name), "wb").write(content)
+            if sc.link:
+                os.makedirs(os.path.join(root, "real"), exist_ok=True)
+                open(os.path.join(root, "real", name), "wb").write(content)
+                os.symlink(os.path.join("real", name), os.path.join(root, name))
+            else:
+                open(os.path.join(root, name), "wb").write(content)
         olds[f] = content
     argv = ["-w", str(WIDTH)]
     stdin = None
@@ -97,6 +107,8 @@ def materialise(sc: Scenario, new: str):
 def make_classifier(root, names):
     def classify(path):
         base = os.path.basename(path)
+        if os.path.dirname(path) == os.path.join(root, "real") and base in names:
+            return ("target", names.index(base) + 1)        # the file behind a symlinked target
         if os.path.dirname(path) != root:
             return ("other", 0)
         for i, n in enumerate(names, 1):
@@ -129,7 +141,7 @@ def disk_state(root, names, olds, newb):
         st["tmp"][f] = cls(parts[0], f) if parts else "Absent"
     known = set(names) | {n + ".orig" for n in names}
     for e in os.listdir(root):
-        if e not in known and not e.endswith(".partial"):
+        if e not in known and not e.endswith(".partial") and e != "real":
             extra.append(e)
     return st, extra
 
@@ -199,6 +211,7 @@ def dry_events(sc: Scenario, newb: bytes):
 
 def execute_inject(base: Scenario, newb: bytes, inject: str, at) -> dict:
     sc = Scenario(0, base.mode, base.backup, base.nfiles, base.outexists, base.bad, "crashed", [], {})
+    sc.link = base.link
     sc.kind, sc.op, sc.file = "generic", f"{at[0]}:{at[1]}", at[2]
     root, names, olds, argv, stdin = materialise(sc, newb.decode())
     try:
@@ -266,8 +279,9 @@ def run(tier: str) -> int:
         # implementation-agnostic crash points: kill at EVERY file-system event of the fault-free run of each
         # configuration (whatever system calls the implementation happens to use)
         generic = []
-        for mode, backup, nfiles, outexists in CONFIGS:
+        for mode, backup, nfiles, outexists, link in [c + (False,) for c in CONFIGS] + [c + (True,) for c in LINK_CONFIGS]:
             base = Scenario(0, mode, backup, nfiles, outexists, [False] * nfiles, "done", [], {})
+            base.link = link
             for e in dry_events(base, newb):
                 if e["op"] in ("exit", "killed"):
                     continue
